@@ -246,11 +246,13 @@ def i_LUI(ins, fmap):
         fmap[dst] = fmap(src1)
 
 
-@__npc
 def i_AUIPC(ins, fmap):
     dst, src1 = ins.operands
+    npc = fmap(pc + ins.length)
     if dst is not zero:
+        # the offset is added to the address of the AUIPC instruction itself
         fmap[dst] = fmap(pc + src1)
+    fmap[pc] = npc
 
 
 def i_JAL(ins, fmap):
